@@ -78,3 +78,8 @@ VARIANTS += [
         ("evaluation/result/perception_frame_result.py", "self.pass_fail_result.evaluate(self.object_results, self.frame_ground_truth.objects)", "self.pass_fail_result.evaluate(self.object_results, frame_ground_truth.objects)")]),
     dict(name="alias-only-feeds-the-filter", kind="benign", edits=[("evaluation/result/perception_frame_result.py", _NARROW, _NARROW_ALIAS)]),
 ]
+
+VARIANTS += [
+    dict(name="seed2-transforms-truthiness-in-filter", kind="break", rule="C10-predicate", edits=[("evaluation/matching/objects_filter.py",
+        "    elif dynamic_object.state.position is not None and transforms is not None:", "    elif dynamic_object.state.position is not None and transforms:")]),
+]
